@@ -7,6 +7,6 @@ for item in "$@"; do
   i=$(echo $item | cut -d: -f1); k=$(echo $item | cut -d: -f2); extra=$(echo $item | cut -d: -f3)
   checks=C$i; [ -n "$extra" ] && checks="C$i,$extra"
   out=$OUT/C${i}_$k$SUF.json
-  python3 "$HERE/eval_mutant.py" "$ROOT/$PFX$i/mutant$k" C$i --skip-confirm --checks "$checks" > "$out" 2>&1
+  python3 "$HERE/eval_mutant.py" "$ROOT/$PFX$i/mutant$k" C$i --skip-confirm ${FALLBACK_BASE:+--fallback-base $FALLBACK_BASE} --checks "$checks" > "$out" 2>&1
 done
 echo ALLDONE > "$OUT/DONE$SUF"
